@@ -44,6 +44,8 @@ class Pipe(kernel.Actor):
                 k = 1
             elif style == "aligned":
                 k = min(n, 32)
+            elif style == "ids" and n >= 32:
+                k = 32 * (self.sim.choose(n // 32) + 1)        # a whole number of ids, as many as the choice says
             else:
                 k = self.sim.choose(n) + 1
             data = bytes(self.buf[:k])
